@@ -60,13 +60,62 @@ def _apply(root, v):
     return None
 
 
+def _apply_patch(root, v):
+    """a stored sub-agent change (seeded/<id>/patch.diff or benign/<id>/patch.diff, paths py34/bacpypes/..): applied with
+    patch(1) to the copy; a patch that no longer applies is stale, not a problem (the tree has moved on)"""
+    import subprocess
+    top = os.path.dirname(os.path.dirname(root))        # <tmp>/py34/bacpypes -> <tmp>
+    r = subprocess.run(["patch", "-p1", "-s", "-F3", "--no-backup-if-mismatch", "-d", top, "-i", v["patch"]], capture_output=True, text=True)
+    if r.returncode:
+        return "stale: patch does not apply"
+    for dp, _, fs in os.walk(root):
+        for f in fs:
+            if f.endswith(".py"):
+                try:
+                    with open(os.path.join(dp, f), encoding="utf-8") as fh:
+                        compile(fh.read(), f, "exec")
+                except SyntaxError as ex:
+                    return "stale: %s" % ex
+    return None
+
+
+def patch_variants(pid):
+    """the seeded changes recorded for this property (must be detected) and every stored behaviour-preserving
+    refactoring (must be silent for this property)"""
+    base = os.path.dirname(os.path.dirname(os.path.abspath(__file__)))
+    out = []
+    sd = os.path.join(base, "seeded")
+    if os.path.isdir(sd):
+        for d in sorted(os.listdir(sd)):
+            mp = os.path.join(sd, d, "meta.json")
+            if not os.path.exists(mp) or not d.startswith(pid + "-"):
+                continue
+            try:
+                meta = json.load(open(mp))
+            except ValueError:
+                continue
+            if meta.get("neutralised_by"):
+                continue
+            out.append(dict(kind="mutant", prop=pid, id="%s/seed/%s" % (pid, d), patch=os.path.join(sd, d, "patch.diff"), expect=None, what=meta.get("title", ""), allow_error=False))
+    bd = os.path.join(base, "benign")
+    if os.path.isdir(bd):
+        for d in sorted(os.listdir(bd)):
+            pp = os.path.join(bd, d, "patch.diff")
+            if os.path.exists(pp):
+                out.append(dict(kind="benign", prop=pid, id="%s/refactoring/%s" % (pid, d), patch=pp, what=""))
+    return out
+
+
 def _run_variant(args):
     src_root, v = args
     tmp = tempfile.mkdtemp(prefix="bacverif-st-")
     try:
-        root = os.path.join(tmp, "bacpypes")
+        if v.get("patch"):
+            root = os.path.join(tmp, "py34", "bacpypes")
+        else:
+            root = os.path.join(tmp, "bacpypes")
         shutil.copytree(src_root, root, ignore=shutil.ignore_patterns("__pycache__", "*.pyc"))
-        why = _apply(root, v)
+        why = _apply_patch(root, v) if v.get("patch") else _apply(root, v)
         if why:
             return dict(id=v["id"], status="stale" if why.startswith("stale") else "broken", detail=why)
         res = report.run_property(v["prop"], root=root)
@@ -94,10 +143,10 @@ def _run_variant(args):
         shutil.rmtree(tmp, ignore_errors=True)
 
 
-def run(pid, root=None, jobs=16, verbose=False):
+def run(pid, root=None, jobs=16, verbose=False, patches=True):
     t0 = time.time()
     root = root or DEFAULT_ROOT
-    vs = load_variants(pid)
+    vs = load_variants(pid) + (patch_variants(pid) if patches and pid not in (None, "all") else [])
     results = []
     if vs:
         with concurrent.futures.ProcessPoolExecutor(max_workers=min(jobs, len(vs))) as ex:
